@@ -183,6 +183,15 @@ class Summariser:
                     inside = x in a[2]
                     if inside == a[3]:
                         return True
+            # a value whose variant is known on this path (a definition picked by the path) decides the test itself
+            if a[0] in ("ok", "notok") and isinstance(a[1], tuple) and a[1] and a[1][0] == "agg" \
+                    and a[1][1].split("::")[-1] in ("Result", "Option"):
+                is_ok = a[1][2] in ("Ok", "Some")
+                if is_ok != (a[0] == "ok"):
+                    return True
+            if a[0] == "variant" and isinstance(a[1], tuple) and a[1] and a[1][0] == "agg" and a[1][2] is not None:
+                if (a[1][2] in a[2]) == bool(a[3]):
+                    return True
             # direct contradiction with an earlier atom on the same subject
             if a[0] in ("ok", "notok", "true", "false"):
                 opp = {"ok": "notok", "notok": "ok", "true": "false", "false": "true"}[a[0]]
